@@ -21,9 +21,13 @@ Ev == Traces[tid].ev
 B == Traces[tid].bounds
 Reached(n) == TLCSet(tid, IF TLCGet(tid) < n THEN n ELSE TLCGet(tid))
 
+NT == Len(Traces)
+\* register tid      : furthest line reached (trace acceptance)
+\* register NT + tid : 1 once an observable of the trace exceeded its bound, 2 once the trace ended with an
+\*                     unobserved bounded observable (TLC keeps going, so that ALL offending traces are reported)
 Init == /\ tid \in 1 .. Len(Traces) /\ l = 1
         /\ worst = [n \in DOMAIN Traces[tid].bounds |-> -9999]
-        /\ TLCSet(tid, 1)
+        /\ TLCSet(tid, 1) /\ TLCSet(NT + tid, 0)
 
 Observe ==
     /\ l <= Len(Ev)
@@ -31,13 +35,26 @@ Observe ==
     /\ worst' = [worst EXCEPT ![Ev[l].name] = IF Ev[l].mag > @ THEN Ev[l].mag ELSE @]
     /\ l' = l + 1 /\ tid' = tid
 
-Next == Observe /\ Reached(l + 1)
+Flag == LET over == Ev[l].mag > B[Ev[l].name]
+            last == l = Len(Ev)
+            unseen == last /\ \E n \in DOMAIN B : worst'[n] = -9999
+        IN  IF over THEN TLCSet(NT + tid, 1)
+            ELSE IF unseen /\ TLCGet(NT + tid) = 0 THEN TLCSet(NT + tid, 2) ELSE TRUE
+Next == Observe /\ Flag /\ Reached(l + 1)
 Spec == Init /\ [][Next]_vars
 
 WithinBounds == \A n \in DOMAIN B : worst[n] <= B[n]
 AllObserved == (l = Len(Ev) + 1) => \A n \in DOMAIN B : worst[n] > -9999
 
+\* WithinBounds / AllObserved above are the requirement as state predicates (checked as invariants by the
+\* self-test configuration); the batch configuration evaluates them per trace through the registers so that one
+\* offending trace does not hide the others.
 AllAccepted ==
     LET bad == {t \in 1 .. Len(Traces) : TLCGet(t) # Len(Traces[t].ev) + 1}
-    IN  PrintT(<<"REJECTED", {<<t, TLCGet(t)>> : t \in bad}>>) /\ bad = {}
+        oob == {t \in 1 .. Len(Traces) : TLCGet(NT + t) = 1}
+        vac == {t \in 1 .. Len(Traces) : TLCGet(NT + t) = 2}
+    IN  /\ PrintT(<<"REJECTED", {<<t, TLCGet(t)>> : t \in bad}>>)
+        /\ PrintT(<<"OUTOFBOUNDS", {<<t, 1>> : t \in oob}>>)
+        /\ PrintT(<<"UNOBSERVED", {<<t, 2>> : t \in vac}>>)
+        /\ bad = {} /\ oob = {} /\ vac = {}
 =============================================================================
